@@ -1,10 +1,5 @@
-CONSTANT Alphabet = {}
-CONSTANT MaxToks = 0
-CONSTANT MaxDefs = 0
-CONSTANT Start = "Doc"
-CONSTANT Sigma = {}
-CONSTANT MaxLen = 0
-CONSTANT First = {}
+CONSTANT Runs = {}
+CONSTANT LRuns = {}
 CONSTANT Chunk = 250
 INIT TInit
 NEXT TNext
